@@ -169,6 +169,16 @@ def gen(rng, nm, na):
                 nodev.append(f"S{ln}")
             c["faults"] = {str(rng.randint(1, 4)): [[ln, str(rng.choice([F(2), F(3), F(7, 2)]))]]}
             c.pop("single", None)
+        if j % 5 == 3 and d_lines:
+            # targeted: a sectioning time that is not a multiple of the step (the timers overshoot below zero), one fault in the
+            # hosting network, support-mode microgrid: it reconnects in the pass in which the time has run out, not one later
+            dtq = F(c["dt"])
+            c["spec"]["ctrl"]["T"] = str(dtq * rng.choice([F(1, 2), F(3, 2), F(5, 2), F(4, 3)]))
+            c["spec"]["mg"]["mode"] = rng.choice(["full", "limited"])
+            c["spec"]["ctrl"].pop("nodev", None)
+            k0 = rng.randint(1, 3); ln = rng.choice(d_lines)
+            c["faults"] = {str(k0): [[ln, str(rng.choice([F(2), F(3), F(7, 2)]))]]}
+            c["single"] = [k0, ln]
         if j % 5 == 2 and d_lines:
             # two iterations on the same objects: the first ends while a line of the hosting network is failed; after the reset a
             # fault inside the microgrid (or in the hosting network): the microgrid must come back as the property says
